@@ -19,10 +19,14 @@ from whoosh.codec.whoosh3 import W3Codec
 concrete_arrays()
 
 STORAGES = ["ram", "file-mmap", "file-nommap"]
+_CLEARBASE = {}
 FRONTENDS = ["segment", "segment-loose", "buffered-1", "buffered-2", "buffered-4", "async-free", "async-contended",
              "mp-2procs", "mp-2procs-batch1", "mp-3procs-multisegment", "buffered-1-deletelast", "buffered-2-deletelast", "buffered-3-deletelast",
              # a temporary document is added and deleted again while it is still in the buffer, with further documents buffered behind it
-             "buffered-9-tmpdoc", "buffered-3-tmpdoc"]
+             "buffered-9-tmpdoc", "buffered-3-tmpdoc",
+             # the final commit carries mergetype=CLEAR (a document-level effect: only this writer's documents remain); the AsyncWriter must
+             # pass the arguments of commit() on whether it got the lock at once or commits later from its retry thread (seed C18-5)
+             "async-free-clear", "async-contended-clear"]
 TMPDOC = dict(k=u"tmp", t=u"tango alfa", g=u"red", n=99, kind=u"doc", cc=99)
 NFE = len(FRONTENDS)
 
@@ -82,19 +86,37 @@ def run_config(skind, fe, cutmask, to_ram):
                 bw.close()
         elif name.startswith("async"):
             blocker = None
-            if name == "async-contended":
+            ckw = {}
+            if name.endswith("clear"):
+                ckw = dict(mergetype=writing.CLEAR)
+                rest = [op for op in rest if op[0] in ("add", "group")]      # (CLEAR drops the old segments, so only additions are meaningful)
+                key = "clear"
+                if key not in _CLEARBASE:
+                    st0 = RamStorage()
+                    ix0 = st0.create_index(schema())
+                    w0 = ix0.writer()
+                    for op in OPS[:FORCED + 1]:
+                        apply_op(w0, op)
+                    w0.commit()
+                    w0 = ix0.writer()
+                    for op in rest:
+                        apply_op(w0, op)
+                    w0.commit(mergetype=writing.CLEAR)
+                    _CLEARBASE[key] = full_dump(ix0, with_stats=False)
+                base = _CLEARBASE[key]
+            if "contended" in name:
                 blocker = ix.writer()
             aw = writing.AsyncWriter(ix, delay=0.01)
             for op in rest:
                 apply_op(aw, op)
             if blocker is not None:
-                aw.commit()                 # buffered: starts retrying in its thread
+                aw.commit(**ckw)            # buffered: starts retrying in its thread
                 blocker.cancel()
                 aw.join(30)
                 if aw.is_alive():
                     return "%s on %s: AsyncWriter thread did not finish" % (name, skind)
             else:
-                aw.commit()
+                aw.commit(**ckw)
         elif name.startswith("mp"):
             if skind == "ram":
                 return None      # sub-processes cannot share a RamStorage: MpWriter needs a directory
